@@ -91,7 +91,7 @@ func v15Scalar(name string) map[string]interface{} { return v15Type("SCALAR", na
 func VerifIntrospect() {
 	shape := v15Shapes[verifChoice("shape", verifParam("shapes", len(v15Shapes)))]
 	argShape := v15Shapes[verifChoice("argshape", 4)]
-	defKind := verifChoice("default", 6) // 0 none, 1 Int literal, 2 String literal, 3 list literal, 4 object literal, 5 number for a custom scalar
+	defKind := verifChoice("default", 8) // 0 none, 1 Int literal, 2 String literal, 3 list literal, 4 object literal, 5 number for a custom scalar, 6 negative Int, 7 negative Float with exponent
 	if defKind >= 3 && argShape != "" {
 		verifAssume(false) // these defaults fix the argument's type themselves
 	}
@@ -127,6 +127,11 @@ func VerifIntrospect() {
 		argLeaf = "S"
 		argShape = ""
 		argDef, wantDefault = `30`, `30`
+	case 6:
+		argDef, wantDefault = "-3", "-3"
+	case 7:
+		argLeaf = "Float"
+		argDef, wantDefault = "-1.5e3", "-1.5e3"
 	}
 	args := []interface{}{v15InputValue("a", argShape, argLeaf, argDef)}
 	// the enum-typed positions with a default are nullable (E = A) or non-null (E! = A)
@@ -174,7 +179,7 @@ func VerifIntrospect() {
 	m := v15Type("OBJECT", "Mutation")
 	m["fields"] = []interface{}{v15Field("set", "", "Int", []interface{}{}, false, "")}
 	m["interfaces"] = []interface{}{}
-	types := []interface{}{q, o, p, i, i2, u, e, in, v15Scalar("S"), v15Scalar("Int"), v15Scalar("String"), v15Scalar("Boolean")}
+	types := []interface{}{q, o, p, i, i2, u, e, in, v15Scalar("S"), v15Scalar("Int"), v15Scalar("Float"), v15Scalar("String"), v15Scalar("Boolean")}
 	if withMutation {
 		types = append(types, m)
 	}
